@@ -84,7 +84,7 @@ def run(ctx):
                     ctx.ob('T9.blank', nx.fq, 'the blank-line test is made on a whitespace-stripped line (a line that is only '
                            'a newline is skipped, not handed to json.loads)', ok, loc=loc(nx, o.node), detail=src)
     if n_tests == 0:
-        ctx.ob('T9.blank', nx.fq, 'lines are tested for emptiness before json.loads', False, loc=nx.loc)
+        ctx.unknown('T9.blank', nx.fq, 'no emptiness test of the line read from the line iterator found', nx.loc)
     # errors skipped only under ignore_errors
     handlers = [n for n in ast.walk(nx.node) if isinstance(n, ast.ExceptHandler)]
     ok = bool(handlers)
